@@ -159,18 +159,11 @@ fn bracket(p: &[PC], start: usize) -> BrRes {
             }
             Some(PC::N('-')) => els.push(El::Dash),
             Some(PC::N(c)) => els.push(El::Ch(*c)),
-            Some(PC::L(c)) => {
-                // A quoted character is a literal member. Quoted characters that would be special
-                // here are left out (the standard's wording on them changed between issues).
-                if matches!(c, '-' | ']' | '!' | '^' | '[') {
-                    return if closes(p, i + 1) {
-                        BrRes::Unspec("quoted special character inside a bracket expression")
-                    } else {
-                        BrRes::NotBracket
-                    };
-                }
-                els.push(El::Ch(*c))
-            }
+            // A quoted (or backslash-escaped) character matches only itself: it is a member of
+            // the set and never a range operator, a closing bracket, the negation mark or the
+            // start of a class ("quoted or backslash-escaped characters match only themselves";
+            // XCU 2.14.1 in Issue 8 says so explicitly for bracket expressions).
+            Some(PC::L(c)) => els.push(El::Ch(*c)),
         }
         i += 1;
     }
